@@ -7,6 +7,7 @@ package vm
 // chosen.  Compared: the probe trace, the result value, the error status.
 
 import (
+	"errors"
 	"reflect"
 
 	"github.com/mattn/anko/ast"
@@ -729,3 +730,39 @@ func ZZ_C08_control_d2_text_lite()   { zzControlT(2, 2, false, true, true, "C08"
 func ZZ_C08_control_d2_text()        { zzControlT(2, 2, false, false, true, "C08") }
 func ZZ_C09_try_defer_d1_text()      { zzControlT(1, 4, true, false, true, "C09") }
 func ZZ_C09_try_defer_d2_text_lite() { zzControlT(2, 2, true, true, true, "C09") }
+
+// ZZ_C09_throw_values: `throw v` aborts evaluation whatever v is: the statement
+// after it does not run, the nearest catch runs with the error bound, an
+// uncaught throw reaches the host as an error.
+func ZZ_C09_throw_values() {
+	vals := []string{`""`, `"x"`, `nil`, `0`, `zzn`, `false`, `true`, `[]`, `{}`, `" "`, `0.0`, `zzerr`, `[""]`, `"" + ""`, `func() { return "" }()`}
+	vi := zz.Choose(len(vals))
+	form := zz.Choose(4)
+	e := env.NewEnv()
+	e.Define("p", func(tag int64) int64 { zz.Probe(int(tag)); return tag })
+	e.Define("zzn", zz.Int64())
+	e.Define("zzerr", errors.New(""))
+	var src string
+	wantErr := false
+	var want []int
+	switch form {
+	case 0:
+		src = "p(1); throw " + vals[vi] + "; p(2)"
+		wantErr, want = true, []int{1}
+	case 1:
+		src = "try { p(1); throw " + vals[vi] + "; p(2) } catch e { p(3) }; p(4)"
+		want = []int{1, 3, 4}
+	case 2:
+		src = "f = func() { p(1); throw " + vals[vi] + "; p(2) }; try { f(); p(5) } catch e { p(3) } finally { p(6) }; p(4)"
+		want = []int{1, 3, 6, 4}
+	case 3:
+		src = "for i in [1, 2] { p(1); throw " + vals[vi] + "; p(2) }; p(4)"
+		wantErr, want = true, []int{1}
+	}
+	id := []string{"top-level", "in-try", "in-called-function", "in-loop"}[form] + "/" + vals[vi]
+	zz.ResetTrace()
+	zz.Budget(300000)
+	_, err := Execute(e, &Options{Debug: false}, src)
+	zz.Assertf((err != nil) == wantErr, "C09.throw/error-status/"+id, src)
+	zz.Assertf(zzSameTrace(zz.Trace(), want), "C09.throw/nothing-runs-after-the-throw/"+id, src)
+}
